@@ -54,6 +54,9 @@ func openSim(name string) (*File, error) {
 	if rerr == nil {
 		rerr = syscall.EIO
 	}
+	if f := simio.Flavour(spec.D.ErrWraps); f != nil {
+		rerr = f
+	}
 	s.Err = &fs.PathError{Op: "read", Path: name, Err: rerr}
 	if Observer != nil {
 		Observer("open", name, s)
